@@ -41,10 +41,29 @@ class NotInlinable(Exception):
 def build_inventory(repo: Repo) -> t.Dict[str, t.Any]:
     return {
         "conv": Normalizer(repo, {}).conventions(),
+        "callers": _callers(repo),
+        "nparams": {q: len(f.params) for q, f in repo.funcs.items()},
         "funcs": sorted(repo.funcs),
         "consts": {m.name: sorted(m.consts) for m in repo.modules.values()},
         "class_consts": {c.qual: sorted(c.class_consts) for c in repo.classes.values()},
     }
+
+
+def _callers(repo: Repo) -> t.Dict[str, t.List[str]]:
+    """qualified function -> functions whose body mentions its name (name based: enough to tell renamed helpers apart)."""
+    names: t.Dict[str, t.Set[str]] = {}
+    for q, f in repo.funcs.items():
+        used = set()
+        for n in ast.walk(f.node):
+            if isinstance(n, ast.Name):
+                used.add(n.id)
+            elif isinstance(n, ast.Attribute):
+                used.add(n.attr)
+        names[q] = used
+    out: t.Dict[str, t.List[str]] = {}
+    for q, f in repo.funcs.items():
+        out[q] = sorted(c for c, used in names.items() if c != q and f.name in used)
+    return out
 
 
 def load_inventory() -> t.Optional[t.Dict[str, t.Any]]:
@@ -184,6 +203,7 @@ class Normalizer:
         self.inv_funcs = set(inventory.get("funcs", []))
         self.inv_consts = {k: set(v) for k, v in inventory.get("consts", {}).items()}
         self.inv_cconsts = {k: set(v) for k, v in inventory.get("class_consts", {}).items()}
+        self.inventory = inventory
         self.conv: t.Dict[str, int] = dict(inventory.get("conv", {}))
         self.counter = 0
         self.log: t.Dict[str, t.List[str]] = {"inlined": [], "not_inlined": [], "constants": [], "aliases": [], "positional": [], "ifexp": []}
@@ -191,6 +211,7 @@ class Normalizer:
     # ------------------------------------------------------------------------------------------ driver
     def run(self) -> None:
         repo = self.repo
+        self.undo_renames()
         self.new_funcs = {q: f for q, f in repo.funcs.items() if q not in self.inv_funcs}
         for f in list(repo.funcs.values()):
             self._replace_node(f, self.fold_new_constants(f))
@@ -218,6 +239,59 @@ class Normalizer:
         for f in list(repo.funcs.values()):
             self._replace_node(f, self.propagate(f))
         repo.normal_form = self.log  # type: ignore[attr-defined]
+
+    # ------------------------------------------------------------------------------------------ N0
+    def undo_renames(self) -> None:
+        """A private function / method of the inventory that is gone while a new one with the same number of parameters
+        appeared in the same module / class (and, if several did, is mentioned by the same callers) was renamed: the
+        reference name is restored everywhere, so the rules' anchors and call-name matches keep working."""
+        repo = self.repo
+        inv_callers: t.Dict[str, t.List[str]] = self.inventory.get("callers", {})
+        inv_np: t.Dict[str, int] = self.inventory.get("nparams", {})
+        missing = [q for q in sorted(self.inv_funcs) if q not in repo.funcs and q.rsplit(".", 1)[-1].startswith("_") and not q.rsplit(".", 1)[-1].startswith("__")]
+        if not missing:
+            return
+        new = {q: f for q, f in repo.funcs.items() if q not in self.inv_funcs and f.name.startswith("_") and not f.name.startswith("__")}
+        cur_callers = _callers(repo)
+        renames: t.Dict[str, str] = {}  # new qual -> old qual
+        for old in missing:
+            scope = old.rsplit(".", 1)[0]
+            cands = [q for q, f in new.items() if q.rsplit(".", 1)[0] == scope and len(f.params) == inv_np.get(old, -1) and q not in renames]
+            if len(cands) > 1:
+                want = set(inv_callers.get(old, []))
+                cands = [q for q in cands if set(cur_callers.get(q, [])) == want] or []
+            if len(cands) == 1:
+                renames[cands[0]] = old
+        if not renames:
+            return
+        short = {n.rsplit(".", 1)[-1]: o.rsplit(".", 1)[-1] for n, o in renames.items()}
+        if len(set(short)) != len(short) or any(v in {f.name for f in repo.funcs.values()} for v in short.values()):
+            return  # ambiguous: leave everything as it is
+
+        class R(ast.NodeTransformer):
+            def visit_Name(self, node: ast.Name) -> ast.AST:
+                if node.id in short:
+                    return ast.copy_location(ast.Name(id=short[node.id], ctx=node.ctx), node)
+                return node
+
+            def visit_Attribute(self, node: ast.Attribute) -> ast.AST:
+                self.generic_visit(node)
+                if node.attr in short:
+                    node.attr = short[node.attr]
+                return node
+
+        for m in repo.modules.values():
+            R().visit(m.tree)
+        for nq, oq in renames.items():
+            f = repo.funcs.pop(nq)
+            f.node.name = oq.rsplit(".", 1)[-1]
+            f.name = f.node.name
+            f.qual = oq
+            repo.funcs[oq] = f
+            if f.cls is not None:
+                f.cls.methods.pop(nq.rsplit(".", 1)[-1], None)
+                f.cls.methods[f.name] = f
+            self.log.setdefault("renamed", []).append(f"{nq} is the reference tree's {oq}")
 
     def _replace_node(self, f: Func, new: t.Optional[FuncNode]) -> None:
         if new is None or new is f.node:
